@@ -42,6 +42,12 @@ def reg(pid, pkg, run, race=False, shards=(1, 16), timeout=(900, 5400), overlay=
                        gomaxprocs=gomaxprocs, crash_is_violation=crash_is_violation)
 
 
+OV_MCREW = dict(name="mcrew", files={
+    "_overlay/mcrew/zz_verif_c16_test.go": "cmd/mcrew/zz_verif_c16_test.go",
+    "_overlay/mcrew/zz_verif_c17_test.go": "cmd/mcrew/zz_verif_c17_test.go",
+    "_overlay/mcrew/zz_verif_c14_test.go": "cmd/mcrew/zz_verif_c14_test.go",
+})
+
 A_MATCH = ["the reference matcher (lib/refmatch), written from README/doc/rfc.md, is the oracle",
            "messages and bound values contain no string starting with '?' (as the property states)"]
 reg("C01", "./checks/match", "^TestC01", assumptions=A_MATCH)
@@ -68,14 +74,16 @@ reg("C10", "./checks/es", "^TestC10", race=True, shards=(4, 16), assumptions=A_E
 reg("C12", "./checks/es", "^TestC12", race=True, shards=(4, 16), gomaxprocs=[16, 4, 2, 8], assumptions=A_ES + ["a data race reported by the race detector fails the test binary (exit status), which the driver reports"])
 reg("C11", "./checks/es", "^TestC11", race=True, shards=(4, 16), assumptions=["promptness is judged against deadline + 6 s (quick) / 15 s (thorough): a lost interrupt means never, so the bound is generous", "scripts spend their time in interpreted code, not in one long built-in call"])
 
-reg("C14", "./checks/sio", "^TestC14", shards=(4, 16), assumptions=["the routing model follows doc/by-example.md and sio/crew.go's comments: 'to' absent or '*' = every ordinary machine, an id or list of ids = those machines, service machines only when addressed", "the order in which the machines of one round are visited is not constrained (multisets are compared)"])
+reg("C14", None, None)
+CHECKS["C14"]["parts"] = ["C14sio", "C14mcrew"]
+reg("C14mcrew", "./cmd/mcrew", "^TestC14", overlay=OV_MCREW, shards=(4, 16),
+    assumptions=["mcrew routes on a single machine id (lists are, by its own comment, 'not a machine id'); emissions are re-processed asynchronously, the harness waits for the expected volume plus a grace period"])
+CHECKS["C14mcrew"]["subchecks"] = ["mcrew"]
+reg("C14sio", "./checks/sio", "^TestC14", shards=(4, 16), assumptions=["the routing model follows doc/by-example.md and sio/crew.go's comments: 'to' absent or '*' = every ordinary machine, an id or list of ids = those machines, service machines only when addressed", "the order in which the machines of one round are visited is not constrained (multisets are compared)"])
 
+CHECKS["C14sio"]["subchecks"] = ["sio"]
 reg("C15", "./checks/sio", "^TestC15", shards=(4, 16), assumptions=["counter machines react independently (their reactions to one message commute)", "the store folds changes exactly as sio's Stdio coupling does; crash points are message boundaries"])
 
-OV_MCREW = dict(name="mcrew", files={
-    "_overlay/mcrew/zz_verif_c16_test.go": "cmd/mcrew/zz_verif_c16_test.go",
-    "_overlay/mcrew/zz_verif_c17_test.go": "cmd/mcrew/zz_verif_c17_test.go",
-})
 reg("C17sio", "./checks/sio", "^TestC17", race=True, shards=(16, 16),
     assumptions=["sio: the harness plays the crew loop (it owns the input channel), so 'during the firing' is entered deterministically; a second check runs the real Crew.Loop under the race detector",
                  "sio: the timers machine's reply to a request is read from its bindings; a second request for an id that is still pending is not generated"])
